@@ -769,3 +769,80 @@ def rule_declaration_order(ctx):
             return fields
         f1, f2 = tuple_field(s.node["args"][1]), tuple_field(s.node["args"][2])
         r.check(f1 == {"0"} and f2 == {"1"}, rd.id + "|attack-direction", "operands=%s/%s" % (sorted(f1), sorted(f2)), "attack inserted as (first name, second name)", "the attack operands are not (first captured name, second captured name)", s.loc())
+
+
+# ------------------------------------------------------------------------------------------
+# I/O errors while reading lines are reported (found by seeded change C13/E)
+
+_ITER_NEUTRAL = (
+    "core::iter::traits::iterator::Iterator::enumerate",
+    "core::iter::traits::collect::IntoIterator::into_iter",
+    "core::iter::traits::iterator::Iterator::by_ref",
+    "core::iter::traits::iterator::Iterator::peekable",
+)
+
+
+def rule_line_errors_reported(ctx):
+    prog = ctx.prog
+    r = ctx.rule(
+        "line-errors-reported",
+        "both readers iterate `BufRead::lines()` directly (at most enumerated) and hand the `io::Result<String>` of every line to `?` / "
+        "`with_context` / a match: a line that cannot be read (I/O error, invalid UTF-8) is an error of the whole read, never a silent end of "
+        "input or a skipped line",
+    )
+    roots, reach = reader_reach(prog)
+    n = 0
+    for b in sorted(reach.values(), key=lambda x: x.id):
+        for s in b.calls():
+            if not callee_matches(callee_of(s), r"^std::io::BufRead::lines$"):
+                continue
+            n += 1
+            anchor = "%s|lines" % b.id
+            # follow the iterator value
+            cur = [s.node["dst"]["l"]]
+            seen = set()
+            nexts = []
+            bad = None
+            while cur:
+                l = cur.pop()
+                if l in seen:
+                    continue
+                seen.add(l)
+                for c in consumers(b, l, follow_refs=True):
+                    if c.kind != "call":
+                        continue
+                    d = callee_decl(c.info[0]) if c.info[0] else "<indirect>"
+                    if d in _ITER_NEUTRAL:
+                        cur.append(c.site.node["dst"]["l"])
+                    elif d == "core::iter::traits::iterator::Iterator::next":
+                        nexts.append(c.site)
+                    elif d.startswith("core::iter::traits::iterator::Iterator::") or d.startswith("core::iter::"):
+                        bad = d.rsplit("::", 1)[-1]
+            if bad:
+                r.violation(anchor, "adaptor:%s" % bad, "the lines iterator goes through `%s` before the reader sees the lines: read errors can be swallowed or end the input silently" % bad, s.loc())
+                continue
+            if not nexts:
+                r.ok(anchor, "lines are not consumed by a `for` loop in this body: NOT decided", s.loc())
+                continue
+            # the io::Result<String> of each item
+            ok = False
+            for nx in nexts:
+                res = nx.node["dst"]["l"]
+                # locals holding (a copy/move of) the Result part of the item
+                items = []
+                for st in b.sites():
+                    nd = st.node
+                    if st.si is not None and nd["k"] == "assign" and nd["rv"]["k"] == "use":
+                        q = op_place(nd["rv"]["ops"][0])
+                        if q is not None and q["l"] == res and q["p"] and "core::result::Result<alloc::string::String" in b.local_ty(nd["dst"]["l"]):
+                            items.append(nd["dst"]["l"])
+                for it in items:
+                    for c in consumers(b, it, follow_refs=True):
+                        if c.kind == "call":
+                            d = callee_decl(c.info[0]) if c.info[0] else ""
+                            if d in ("anyhow::Context::with_context", "anyhow::Context::context", "core::ops::try_trait::Try::branch", "core::result::Result::map_err", "core::result::Result::unwrap", "core::result::Result::expect"):
+                                ok = True
+                        elif c.kind == "match":
+                            ok = True
+            r.check(ok, anchor, "line-result-not-checked", "the io::Result of every line is propagated (`?` / with_context) or matched", "the io::Result<String> yielded for a line is not propagated or matched: a read error is not reported", s.loc())
+    r.floor(n, 2, "BufRead::lines() iterations reachable from the readers")
